@@ -139,6 +139,30 @@ def malformed_texts(rng):
     return out
 
 
+def text_variants(rng):
+    """The same documents in other textual forms; some well-formed, some not (expat decides)."""
+    decl = '<?xml version="1.0" encoding="UTF-8"?>'
+    goods = [TJ.to_text(B.story_send('A', [B.p('x')])), TJ.to_text(B.ro_delete()),
+             TJ.to_text(B.ea('SWAP', ABSENT, [B.ids('storyID', ['A', 'B'])])), TJ.to_text(E('mos', E('mosID', text='x'), E('roBogus')))]
+    out = []
+    for k, g in enumerate(goods):
+        forms = [('declaration', decl + g), ('declaration+newline', decl + '\n' + g), ('newline before declaration', '\n' + decl + g),
+                 ('blank before declaration', ' ' + decl + '\n' + g), ('tab+newlines before declaration', '\t\n\n' + decl + g),
+                 ('blank before root', ' \n ' + g), ('trailing newlines', g + '\n\n'), ('blanks both sides', '\n' + g + '\n'),
+                 ('declaration, trailing blank', decl + g + ' \n'), ('comment before root', decl + '<!-- c -->' + g),
+                 ('comment after root', g + '<!-- roDelete -->'), ('text after root', g + 'x'), ('text before root', 'x' + g),
+                 ('pi before root', '<?target data?>' + g), ('doctype', '<!DOCTYPE mos>' + g),
+                 ('second declaration', decl + decl + g), ('declaration after root', g + decl),
+                 ('cdata in text', g.replace('<mos>', '<mos><![CDATA[<roDelete/>]]>', 1)),
+                 ('commented-out message element', g.replace('<mos>', '<mos><!-- <roCreate/> -->', 1)),
+                 ('upper-case declaration', '<?XML version="1.0"?>' + g), ('declaration without version', '<?xml encoding="UTF-8"?>' + g),
+                 ('standalone', '<?xml version="1.0" standalone="yes"?>' + g), ('version 1.1', '<?xml version="1.1"?>' + g),
+                 ('nul at end', g + '\x00'), ('blank inside closing tag', g[:-1] + ' >'), ('form feed before root', '\x0c' + g)]
+        for lbl, t in forms:
+            out.append((f'{lbl} #{k}', t))
+    return out
+
+
 def expat_ok(text):
     p = expat.ParserCreate()
     try:
@@ -209,15 +233,27 @@ def run_c08(tier, seed):
                                'spec': 'same class from a file, a string or bytes', 'expected': expect,
                                'impl': {'bytes': got_b, 'file': got_f}})
     oc.count('encodings', enc_n)
-    # malformed text: MosInvalidXML exactly when the XML parser rejects it (oracle: expat itself)
-    for lbl, text in malformed_texts(rng):
+    # textual forms: malformed text raises MosInvalidXML exactly when the XML parser rejects it (oracle: expat
+    # itself), a well-formed textual variant (declaration, comments, blanks, CDATA ...) is classified like its
+    # tree - and both are the same from a string, bytes and a file
+    variants = malformed_texts(rng) + text_variants(rng)
+    oks = [expat_ok(t) for _, t in variants]
+    vresps = iter(lean.run_batch([{'op': 'classify', 'doc': TJ.parse(t)} for (_, t), ok in zip(variants, oks) if ok]))
+    for (lbl, text), ok in zip(variants, oks):
         oc.evaluations += 1
-        ok = expat_ok(text)
-        got = classify_impl(text, 'string', 'error')
-        oc.count('malformed:' + ('parses' if ok else 'rejected'))
-        if (not ok and got != {'err': 'MosInvalidXML'}) or (ok and got == {'err': 'MosInvalidXML'}):
-            oc.failing.append({'kind': 'classify', 'text': text, 'label': 'malformed: ' + lbl,
-                               'spec': 'malformed XML raises MosInvalidXML (oracle: expat)', 'expat_accepts': ok, 'impl': got})
+        oc.in_domain += 1
+        expected = next(vresps)['spec'] if ok else {'err': 'MosInvalidXML'}
+        obs = {'string/error': classify_impl(text, 'string', 'error'), 'string/ignore': classify_impl(text, 'string', 'ignore'),
+               'bytes/ignore': classify_impl(text.encode('utf-8'), 'string', 'ignore'),
+               'file/ignore': classify_impl(text, 'file', 'ignore'), 'file/error': classify_impl(text, 'file', 'error')}
+        oc.count('textual:' + ('parses' if ok else 'rejected'))
+        bad = [k for k, v in obs.items() if v != expected]
+        if bad:
+            oc.failing.append({'kind': 'classify', 'text': text, 'label': 'textual form: ' + lbl,
+                               'spec': 'malformed XML raises MosInvalidXML, well-formed text is classified by its message element '
+                                       '(oracle for well-formedness: expat); same from a file, a string or bytes',
+                               'expat_accepts': ok, 'expected': expected, 'impl': {k: obs[k] for k in bad}})
+        oc.nontrivial.add(stable_hash(text))
     # static tie: the tables in the Python source, entry by entry and in order, against the model's
     from . import static_tables, impl as _impl
     probs = static_tables.check(_impl.REPO)
@@ -247,6 +283,7 @@ def replay(pid, fl):
         ok = expat_ok(text)
         obs = {f: classify_impl(text, 'string', f) for f in ('ignore', 'default', 'error')}
         obs['file'] = classify_impl(text, 'file', 'error')
+        obs['bytes'] = classify_impl(text.encode('utf-8'), 'string', 'ignore')
         if ok:
             r = lean.run_batch([{'op': 'classify', 'doc': TJ.parse(text)}])[0]
             bad = any(v != r['spec'] for v in obs.values())
